@@ -273,6 +273,13 @@ def check_outputs_statted(ctx, rid, prog):
                                                                 'RecomputeOutputsDirtyCache::depfile')]
     dom = scan.dominators()
     ok = bool(heads) and bool(uses) and all(any(h in dom.get(u['_b'], ()) for h in heads) for u in uses)
+    # ... and after the scan-time dyndep load, which may add outputs
+    stats = [e for e in scan.events('call') if e.get('name') in ('Node::StatIfNecessary', 'Node::Stat') and
+             any(e['_b'] in (scan.reachable_from(l['body']) | {l['body']}) for l in loops_over(scan, 'Edge::outputs_'))]
+    loads = [e for e in scan.calls('DependencyScan::LoadDyndeps')]
+    late = not any(scan.ev_reaches(s, l) for s in stats for l in loads)
+    ctx.check(rid, late and bool(stats), scan.name, 'scan:outputs-statted-before-dyndep-load', scan.loc,
+              'outputs are statted after the edge\'s dyndep file was loaded (it may add outputs)')
     ctx.check(rid, ok, scan.name, 'scan:outputs-not-statted-on-every-visit', scan.loc,
               'the per-output stat loop dominates every outputs-dirty computation of the scan (%d loop(s), %d use(s))' % (len(heads), len(uses)))
 
